@@ -121,6 +121,41 @@ def run(ck: Checker):
                 if not any(s_.id in reachable(cfg, [d.id], avoid={loop}) for s_ in sends):
                     probs.append('after a failed dispatch nothing is sent back: the caller waits for ever')
     ck.ob('C14-2', f, cm[0].ast, not probs, '; '.join(probs) if probs else 'a failing dispatch is answered with a #TRACEBACK message and the serve loop goes on; only EOF / a failed send end it')
+    # ------------------------------------------------------------------ C14-6
+    ck.rule('C14-6', 'a value wrapped by managed() a second time stays reachable through its earlier proxies: Server.create initialises the count entry only if absent, before the proxy is built (same obligation as C13-4, decided here for "state is visible through every proxy")', minimum=1)
+    from .c13 import check_create_bookkeeping
+
+    check_create_bookkeeping(ck, 'C14-6')
+    # ------------------------------------------------------------------ C14-5
+    ck.rule('C14-5', "unserialisable replies: a failure to send the reply (pickling can raise TypeError, AttributeError, PicklingError, ...: any Exception) is answered with an ('#UNSERIALIZABLE', …) message inside the serve loop; only a failure of that second send ends the connection (EXITS)")
+
+    def extra3(node, a):
+        R = set()
+        for c in calls_in(a):
+            if isinstance(c.func, ast.Name) and c.func.id == 'send':
+                R.add('Exception')
+        return R
+
+    cfg = build_cfg(f, ck.repo, make_fallible(sc, iters=set(), calls=set(), extra=extra3))
+    sends = [k for k in cfg.nodes if k.pending is None and header_expr(k) is not None and any(isinstance(c.func, ast.Name) and c.func.id == 'send' for c in calls_in(header_expr(k)))]
+    first = [k for k in sends if '#UNSERIALIZABLE' not in norm_text(k.ast)]
+    second = {k.id for k in sends if '#UNSERIALIZABLE' in norm_text(k.ast)}
+    ck.need(first, f'{f.key}: the send of the reply was not found')
+    probs = []
+    if not second:
+        probs.append("no ('#UNSERIALIZABLE', …) reply is ever sent")
+    for k in first:
+        excs = [e for e in cfg.succ[k.id] if e.kind == 'exc']
+        if not excs:
+            probs.append('the send of the reply is not modelled as fallible')
+        for e in excs:
+            # every way the first send can fail must lead to the second send before anything else ends the iteration
+            pth = path_avoiding(cfg, [e], {cfg.exit_return, cfg.exit_raise} | ({k.loops[0]} if k.loops else set()), avoid=second)
+            if pth is not None:
+                caught = sorted(e.data) if e.data else []
+                probs.append(f"a reply that fails to serialise with {'/'.join(caught) or 'an exception'} is not answered with '#UNSERIALIZABLE': the handler around `send(msg)` is narrower than Exception, the failure reaches the outer handler, which closes the connection — every later call from that client fails")
+                break
+    ck.ob('C14-5', f, first[0].ast, not probs, '; '.join(sorted(set(probs))) if probs else "any Exception raised while sending the reply is answered with ('#UNSERIALIZABLE', traceback); the connection stays usable")
     # ------------------------------------------------------------------ C14-3
     reg = {}
     for n in mod.tree.body:
